@@ -420,3 +420,17 @@ M("C10", "jacobian-state-leak", [(WC, "        ra, dec = self.image2sky(x, y, di
   "every jacobian evaluation on more than eight points shifts the object's reference pixel by 1e-7")
 M("C10", "findxy-array-uses-first-lat", [(WC, "                x[i], y[i] = self._findxy_one(lon[i], lat[i], xtol=xtol)", "                x[i], y[i] = self._findxy_one(lon[i], lat[i if i < 8 else 0], xtol=xtol)")],
   "array root finding beyond the 8th element uses the first latitude")
+
+# ---- added with seeding round 5 (new families): each reverts a repair or disables what a new family exercises
+M("C15", "wrap-ra-diff-in-place", [(WC, "        # work on a copy, the input array is not modified\n        dra = np.array(dra)\n", "")],
+  "the array branch of wrap_ra_diff writes into the caller's array again (repair 2d886ed reverted)")
+M("C10", "longpole-from-header-ignored", [(WC, '            self.longpole = self.wcs["longpole"]\n', "            self.longpole = longpole\n")],
+  "a LONGPOLE other than 180 deg in the header is ignored")
+M("C08", "getangle-distance-from-unclipped-cosine", [(CO, "    if getangle:\n        theta = (", "    if getangle:\n        dis = arccos(np.clip(cosdis * (1 - 1e-9), -1, 1))\n        theta = (")],
+  "gcirc(getangle=True) returns a slightly different distance than gcirc()")
+M("C19", "randsphere-wraps-360", [(CO, "    ra = rng.uniform(low=ra_range[0], high=ra_range[1], size=num)\n", "    ra = rng.uniform(low=ra_range[0], high=ra_range[1], size=num)\n    ra[ra >= 360.0] -= 360.0\n")],
+  "a box ending at 360 returns longitudes of 0")
+M("C20", "isplit-memoised", [(AL, "def isplit(num, nchunks):", "import functools\n\n\n@functools.lru_cache(maxsize=64)\ndef isplit(num, nchunks):")],
+  "the array returned by isplit is shared between calls")
+M("C14", "binner-keeps-min-from-previous-call", [(SU, "    def dohist(", "    _sticky = {}\n\n    def dohist(")],
+  "control: an unused class attribute", control=True)
